@@ -16,6 +16,7 @@ type TypeInfo struct {
 	structOrder []Sort              // declaration order (dependencies first)
 	structType  map[Sort]*types.Struct
 	inProgress  map[string]bool
+	light       bool
 }
 
 func NewTypeInfo() *TypeInfo {
@@ -318,10 +319,21 @@ func intRange(bits int, signed bool) (lo, hi *big.Int) {
 // WF returns typing/well-formedness facts about a value term of Go type t
 // that hold for every value of that type in any reachable state.
 // alloc bounds the references it may hold.
+// WFHeap is WF restricted to slice shapes and reference bounds (used for the
+// quantified facts about whole heaps, where fewer conjuncts keep the solver fast).
+func (ti *TypeInfo) WFHeap(v *Term, t types.Type, alloc *Term) []*Term {
+	ti.light = true
+	defer func() { ti.light = false }()
+	return ti.WF(v, t, alloc)
+}
+
 func (ti *TypeInfo) WF(v *Term, t types.Type, alloc *Term) []*Term {
 	var out []*Term
 	switch u := t.Underlying().(type) {
 	case *types.Basic:
+		if ti.light {
+			return nil
+		}
 		if u.Info()&types.IsInteger != 0 && v.Sort == SInt {
 			if _, isLit := v.IntVal(); isLit {
 				return nil
@@ -345,8 +357,12 @@ func (ti *TypeInfo) WF(v *Term, t types.Type, alloc *Term) []*Term {
 			}
 		}
 		ref, off, ln, cp := Sel("s-ref", v), Sel("s-off", v), Sel("s-len", v), Sel("s-cap", v)
-		out = append(out, Le(IntLit(0), ref), Le(IntLit(0), off), Le(IntLit(0), ln), Le(ln, cp), Le(cp, IntLitBig(maxLen)), Le(off, IntLitBig(maxLen)),
-			Implies(Eq(ref, IntLit(0)), Eq(cp, IntLit(0))))
+		if ti.light {
+			out = append(out, Le(IntLit(0), ref), Le(IntLit(0), off), Le(IntLit(0), ln), Le(ln, cp))
+		} else {
+			out = append(out, Le(IntLit(0), ref), Le(IntLit(0), off), Le(IntLit(0), ln), Le(ln, cp), Le(cp, IntLitBig(maxLen)), Le(off, IntLitBig(maxLen)),
+				Implies(Eq(ref, IntLit(0)), Eq(cp, IntLit(0))))
+		}
 		if alloc != nil {
 			out = append(out, Le(ref, alloc))
 		}
